@@ -27,3 +27,5 @@ Proof. intros. apply attr_order_independent; assumption. Qed.
 Print Assumptions C14_parallel_loop_deterministic.
 Print Assumptions C14_history_independent.
 Print Assumptions C14_attr_order_independent.
+Print Assumptions C14_parallel_loop_value.
+Print Assumptions C14_schedule_independent.
